@@ -116,6 +116,8 @@ End Generic.
 Lemma final_shape evs : Forall ev_ok evs -> exists a b c d e f g h i, final evs = [a; b; c; d; e; f; g; h; i].
 Proof. intros H. apply len9, final_len, H. Qed.
 
+Ltac unfold_defaults := cbv [dflt_reqCovers dflt_reqInteraction TP_requireCovers.m_requireCovers_1 TP_requireInteraction.m_requireInteraction_0
+  RP_Disjoint_requireInteraction.m_requireInteraction_0 RP_EqualsTopo_requireInteraction.m_requireInteraction_0].
 Ltac bp_unfold := cbv [known value BP_isKnown.m_isKnown_0 BP_isKnownV.c_isKnown_1 BP_value.m_value_0 BP_toBoolean.c_toBoolean_1
   BP_setValue.m_setValue_1 BP_toValue.c_toValue_1 BP_require.m_require_1 BP_setValueIf.m_setValueIf_2 BP_requireCovers.m_requireCovers_2
   IP_init.m_init_2 IP_finish.m_finish_0 f_m_value f_dimA f_dimB f_intMatrix set_m_value set_dimA set_dimB set_intMatrix pst0
@@ -140,7 +142,7 @@ Section Sound.
   Ltac ext_tac := intros; reflexivity.
 
   Theorem contains_sound : evaluate vt_contains dA dB eA eB evs = spec_contains (final evs).
-  Proof. unfold evaluate, gate. cbn [vt_contains im_vt vt_reqCovers vt_reqInteraction vt_initDim vt_initEnv vt_finish vt_update].
+  Proof. unfold evaluate, gate. cbn [vt_contains im_vt vt_reqCovers vt_reqInteraction vt_initDim vt_initEnv vt_finish vt_update]. unfold_defaults.
     change (RP_Contains_requireCovers.m_requireCovers_1 GEOM_A) with true. cbv iota.
     destruct (m_covers_1 eA eB) eqn:Ecov; cbn [negb].
     2: { open_final. specialize (R2 Ecov). spec_unfold. lia. }
@@ -159,7 +161,7 @@ Section Sound.
       rewrite Hf in *. eapply stable_contains; eauto. Qed.
 
   Theorem within_sound : evaluate vt_within dA dB eA eB evs = spec_within (final evs).
-  Proof. unfold evaluate, gate. cbn [vt_within im_vt vt_reqCovers vt_reqInteraction vt_initDim vt_initEnv vt_finish vt_update].
+  Proof. unfold evaluate, gate. cbn [vt_within im_vt vt_reqCovers vt_reqInteraction vt_initDim vt_initEnv vt_finish vt_update]. unfold_defaults.
     change (RP_Within_requireCovers.m_requireCovers_1 GEOM_A) with false. change (RP_Within_requireCovers.m_requireCovers_1 GEOM_B) with true. cbv iota.
     destruct (m_covers_1 eB eA) eqn:Ecov; cbn [negb].
     2: { open_final. specialize (R2' Ecov). spec_unfold. lia. }
@@ -178,7 +180,7 @@ Section Sound.
       rewrite Hf in *. eapply stable_within; eauto. Qed.
 
   Theorem covers_sound : evaluate vt_covers dA dB eA eB evs = spec_covers (final evs).
-  Proof. unfold evaluate, gate. cbn [vt_covers im_vt vt_reqCovers vt_reqInteraction vt_initDim vt_initEnv vt_finish vt_update].
+  Proof. unfold evaluate, gate. cbn [vt_covers im_vt vt_reqCovers vt_reqInteraction vt_initDim vt_initEnv vt_finish vt_update]. unfold_defaults.
     change (RP_Covers_requireCovers.m_requireCovers_1 GEOM_A) with true. cbv iota.
     destruct (m_covers_1 eA eB) eqn:Ecov; cbn [negb].
     2: { open_final. specialize (R2 Ecov). spec_unfold. lia. }
@@ -197,7 +199,7 @@ Section Sound.
       rewrite Hf in *. eapply stable_covers; eauto. Qed.
 
   Theorem coveredBy_sound : evaluate vt_coveredBy dA dB eA eB evs = spec_coveredBy (final evs).
-  Proof. unfold evaluate, gate. cbn [vt_coveredBy im_vt vt_reqCovers vt_reqInteraction vt_initDim vt_initEnv vt_finish vt_update].
+  Proof. unfold evaluate, gate. cbn [vt_coveredBy im_vt vt_reqCovers vt_reqInteraction vt_initDim vt_initEnv vt_finish vt_update]. unfold_defaults.
     change (RP_CoveredBy_requireCovers.m_requireCovers_1 GEOM_A) with false. change (RP_CoveredBy_requireCovers.m_requireCovers_1 GEOM_B) with true. cbv iota.
     destruct (m_covers_1 eB eA) eqn:Ecov; cbn [negb].
     2: { open_final. specialize (R2' Ecov). spec_unfold. lia. }
@@ -216,7 +218,7 @@ Section Sound.
       rewrite Hf in *. eapply stable_coveredBy; eauto. Qed.
 
   Theorem crosses_sound : evaluate vt_crosses dA dB eA eB evs = spec_crosses dA dB (final evs).
-  Proof. unfold evaluate, gate. cbn [vt_crosses im_vt vt_reqCovers vt_reqInteraction vt_initDim vt_initEnv vt_finish vt_update dflt_reqCovers dflt_initEnv].
+  Proof. unfold evaluate, gate. cbn [vt_crosses im_vt vt_reqCovers vt_reqInteraction vt_initDim vt_initEnv vt_finish vt_update dflt_reqCovers dflt_initEnv]. unfold_defaults.
     destruct (m_intersects_1 eA eB) eqn:Eint; cbn [negb].
     2: { open_final. specialize (R1 Eint). spec_unfold. case_dim dA; case_dim dB; cbv beta iota; cbn [andb orb negb]; rewrite ?if_bool; lia. }
     set (ok := (negb (orb (andb (Z.eqb dA RP_Crosses_initDim.E_DimensionType_P) (Z.eqb dB RP_Crosses_initDim.E_DimensionType_P)) (andb (Z.eqb dA RP_Crosses_initDim.E_DimensionType_A) (Z.eqb dB RP_Crosses_initDim.E_DimensionType_A))))).
@@ -233,7 +235,7 @@ Section Sound.
       rewrite Hf in *. destruct HR as (_ & _ & _ & _ & _ & RLL). eapply stable_crosses; eauto. Qed.
 
   Theorem overlaps_sound : evaluate vt_overlaps dA dB eA eB evs = spec_overlaps dA dB (final evs).
-  Proof. unfold evaluate, gate. cbn [vt_overlaps im_vt vt_reqCovers vt_reqInteraction vt_initDim vt_initEnv vt_finish vt_update dflt_reqCovers dflt_initEnv].
+  Proof. unfold evaluate, gate. cbn [vt_overlaps im_vt vt_reqCovers vt_reqInteraction vt_initDim vt_initEnv vt_finish vt_update dflt_reqCovers dflt_initEnv]. unfold_defaults.
     destruct (m_intersects_1 eA eB) eqn:Eint; cbn [negb].
     2: { open_final. specialize (R1 Eint). spec_unfold. case_dim dA; case_dim dB; cbv beta iota; cbn [andb orb negb]; rewrite ?if_bool; lia. }
     set (ok := (Z.eqb dA dB)).
@@ -250,7 +252,7 @@ Section Sound.
       rewrite Hf in *. destruct HR as (_ & _ & _ & _ & _ & RLL). apply Z.eqb_eq in Ec. eapply stable_overlaps; eauto. Qed.
 
   Theorem touches_sound : evaluate vt_touches dA dB eA eB evs = spec_touches dA dB (final evs).
-  Proof. unfold evaluate, gate. cbn [vt_touches im_vt vt_reqCovers vt_reqInteraction vt_initDim vt_initEnv vt_finish vt_update dflt_reqCovers dflt_initEnv].
+  Proof. unfold evaluate, gate. cbn [vt_touches im_vt vt_reqCovers vt_reqInteraction vt_initDim vt_initEnv vt_finish vt_update dflt_reqCovers dflt_initEnv]. unfold_defaults.
     destruct (m_intersects_1 eA eB) eqn:Eint; cbn [negb].
     2: { open_final. specialize (R1 Eint). spec_unfold. case_dim dA; case_dim dB; cbv beta iota; cbn [andb orb negb]; rewrite ?if_bool; lia. }
     set (ok := (negb (andb (Z.eqb dA 0) (Z.eqb dB 0)))).
@@ -271,7 +273,7 @@ Section Sound.
 
   (* equalsTopo: sound unless BOTH geometries are empty — see equals_both_empty_refuted below *)
   Theorem equals_sound : ~ (eA = None /\ eB = None) -> evaluate vt_equals dA dB eA eB evs = spec_equals dA dB (final evs).
-  Proof. intros Hne. unfold evaluate, gate. cbn [vt_equals im_vt vt_reqCovers vt_reqInteraction vt_initDim vt_initEnv vt_finish vt_update dflt_reqCovers]. cbn [negb].
+  Proof. intros Hne. unfold evaluate, gate. cbn [vt_equals im_vt vt_reqCovers vt_reqInteraction vt_initDim vt_initEnv vt_finish vt_update dflt_reqCovers]. unfold_defaults. cbn [negb].
     assert (Hi : RP_EqualsTopo_initDim.m_init_2 pst0 dA dB = after_dims true dA dB) by reflexivity.
     rewrite Hi. clear Hi. change (known (after_dims true dA dB)) with false. cbv iota.
     assert (Hnull : andb (m_isNull_0 eA) (m_isNull_0 eB) = false).
@@ -355,7 +357,7 @@ Section Basic.
 
 
   Theorem intersects_sound : evaluate vt_intersects dA dB eA eB evs = spec_intersects (final evs).
-  Proof. unfold evaluate, gate. cbn [vt_intersects vt_reqCovers vt_reqInteraction vt_initDim vt_initEnv vt_finish vt_update dflt_reqCovers]. unfold basic_initDim.
+  Proof. unfold evaluate, gate. cbn [vt_intersects vt_reqCovers vt_reqInteraction vt_initDim vt_initEnv vt_finish vt_update dflt_reqCovers]. unfold_defaults. unfold basic_initDim.
     destruct (m_intersects_1 eA eB) eqn:Eint; cbn [negb].
     2: { destruct (final_shape evs Hev) as (a & b & c & d & e & f & g & h & i & Hf). rewrite Hf in *. destruct HR as (R1 & _). specialize (R1 Eint). spec_unfold. lia. }
     change (known pst0) with false. cbv iota.
@@ -367,7 +369,7 @@ Section Basic.
 
 
   Theorem disjoint_sound : evaluate vt_disjoint dA dB eA eB evs = spec_disjoint (final evs).
-  Proof. unfold evaluate, gate. cbn [vt_disjoint vt_reqCovers vt_reqInteraction vt_initDim vt_initEnv vt_finish vt_update dflt_reqCovers]. unfold basic_initDim. cbn [negb].
+  Proof. unfold evaluate, gate. cbn [vt_disjoint vt_reqCovers vt_reqInteraction vt_initDim vt_initEnv vt_finish vt_update dflt_reqCovers]. unfold_defaults. unfold basic_initDim. cbn [negb].
     change (known pst0) with false. cbv iota.
     unfold RP_Disjoint_initEnv.m_init_2, m_disjoint_1, BP_setValueIf.m_setValueIf_2.
     destruct (m_intersects_1 eA eB) eqn:Eint; cbn [negb].
